@@ -383,6 +383,28 @@ pub fn run_child(ctx: &mut Ctx) {
             }
         }
     }
+    // the nesting families behind text that a scanner must skip exactly as the grammar does: comments ended by
+    // LF / CR / CRLF / end of input, brackets and '#' inside strings and block strings, escaped quotes, BOM
+    const DECOR: [&str; 14] = [
+        "#c\n", "#c\r", "#c\r\n", "#{{{{\r", "#\"\r", "#\"\"\"\r", "\u{feff}#}\r",
+        "query A{text(x:\"#\")} ", "query A{text(x:\"\\\"#{[(\")} ", "query A{text(x:\"\"\"\"#\"\"\")} ", "query A{text(x:\"\"\"\\\"\"\"#\"\"\")} ", "query A{text(x:\"\\\\\")} #\r",
+        "query A{text(x:\"\")} #\"\r", ",,,#\r,",
+    ];
+    for (d, decor) in DECOR.iter().enumerate() {
+        for fam in [0usize, 1, 2, 3, 13, 16, 17, 18] {
+            for &sz in &[200usize, 300, 20_000] {
+                let text = format!("{}{}", decor, family(fam, sz));
+                let rendered = format!("decoration {} family {} size {}: {}", d, fam, sz, vcore::drive::truncate(&text, 120));
+                mark("decorated-families", &rendered);
+                let parses = async_graphql::parser::parse_query(&text).is_ok();
+                let r = run_request(&schema, Request::new(text.clone()), text.len());
+                let c = outcome("decorated-families", rendered, r, parses).class(format!("decoration-{}", d));
+                if ctx.check_case("decorated-families", c, serde_json::json!({"decoration": d, "family": fam, "size": sz})) {
+                    return;
+                }
+            }
+        }
+    }
     // nested JSON variables at the parser's depth limit
     for kind in 0..2 {
         for depth in [10usize, 126, 127, 128, 129, 1_000, 100_000] {
